@@ -16,6 +16,7 @@ def run(run, suspicious):
     nparts = (1, 3, 9) if quick else (1, 2, 3, 5, 9, 17, 33)     # both sides of split_every / max_branch / broadcast thresholds
     for npart in nparts:
         df = rt.dx.from_pandas(pdf, npartitions=npart)
+        dfn = rt.dx.from_pandas(pdf.assign(kn=pdf.k.where(pdf.k % 3 != 0).astype("float64")), npartitions=npart)
         sm1 = rt.dx.from_pandas(small, npartitions=1)
         sm3 = rt.dx.from_pandas(small, npartitions=min(3, npart))
         queries = {
@@ -30,6 +31,22 @@ def run(run, suspicious):
             "groupby-agg": (lambda: df.groupby(["k", "j"]).agg({"x": "mean", "y": "max"}), dict(
                 [("split_out=%s" % s, (lambda s=s: df.groupby(["k", "j"]).agg({"x": "mean", "y": "max"}, split_out=s))) for s in (1, 3)] +
                 [("split_every=%s" % s, (lambda s=s: df.groupby(["k", "j"]).agg({"x": "mean", "y": "max"}, split_every=s))) for s in (2, 5)]), False, True),
+            # missing values in the grouping key, kept as a group (dropna=False): every stage of every reduction shape has to keep it
+            "groupby-dropna-false-agg": (lambda: dfn.groupby("kn", dropna=False).agg({"x": "sum", "y": "max"}), dict(
+                [("split_every=%s" % s, (lambda s=s: dfn.groupby("kn", dropna=False).agg({"x": "sum", "y": "max"}, split_every=s))) for s in (2, 3, 8, False)] +
+                [("split_out=%s" % s, (lambda s=s: dfn.groupby("kn", dropna=False).agg({"x": "sum", "y": "max"}, split_out=s))) for s in (1, 2)]), False, True),
+            "groupby-dropna-false-sum": (lambda: dfn.groupby("kn", dropna=False).y.sum(), dict(
+                [("split_every=%s" % s, (lambda s=s: dfn.groupby("kn", dropna=False).y.sum(split_every=s))) for s in (2, 3, False)] +
+                [("split_out=%s" % s, (lambda s=s: dfn.groupby("kn", dropna=False).y.sum(split_out=s))) for s in (1, 2)]), False, True),
+            "groupby-dropna-false-mean-var": (lambda: dfn.groupby(["kn", "j"], dropna=False).agg({"y": ["mean", "var", "count"]}), dict(
+                [("split_every=%s" % s, (lambda s=s: dfn.groupby(["kn", "j"], dropna=False).agg({"y": ["mean", "var", "count"]}, split_every=s))) for s in (2, 4)] +
+                [("split_out=%s" % s, (lambda s=s: dfn.groupby(["kn", "j"], dropna=False).agg({"y": ["mean", "var", "count"]}, split_out=s))) for s in (1, 3)]), False, True),
+            "groupby-dropna-true-agg": (lambda: dfn.groupby("kn", dropna=True).agg({"y": "sum"}), {"split_every=%s" % s: (lambda s=s: dfn.groupby("kn", dropna=True).agg({"y": "sum"}, split_every=s)) for s in (2, 3)}, False, True),
+            "groupby-first-last": (lambda: df.groupby("k").agg({"y": "first", "x": "last"}), dict(
+                [("split_every=%s" % s, (lambda s=s: df.groupby("k").agg({"y": "first", "x": "last"}, split_every=s))) for s in (2, 3)] +
+                [("split_out=2,method=%s" % m, (lambda m=m: df.groupby("k").agg({"y": "first", "x": "last"}, split_out=2, shuffle_method=m))) for m in ("tasks", "disk")]), False, True),
+            "drop_duplicates-keep-first": (lambda: df.drop_duplicates(subset=["k"], keep="first"), dict(
+                [("split_out=%s,method=%s" % (s, m), (lambda s=s, m=m: df.drop_duplicates(subset=["k"], keep="first", split_out=s, shuffle_method=m))) for s in (1, 2) for m in ("tasks", "disk")]), False, True),
             "unique": (lambda: df.k.unique(), {"split_out=%s" % s: (lambda s=s: df.k.unique(split_out=s)) for s in (1, 2, True)}, False, False),
             "drop_duplicates": (lambda: df[["k", "j"]].drop_duplicates(), dict(
                 [("split_out=%s" % s, (lambda s=s: df[["k", "j"]].drop_duplicates(split_out=s))) for s in (1, 2, True)] +
